@@ -32,20 +32,19 @@ package dns
 //@   ensures isdig(s[0]) && isdig(s[1]) && isdig(s[2]) ==> ret0 == ((s[0] - '0') * 100 + (s[1] - '0') * 10 + (s[2] - '0')) % 256
 //@   pure
 
-// whether position i is escaped depends only on the octets before it
-//@ lemma escd_prefix(a seq, b seq, i int) induct i: (0 <= i && (forall k in 0..i :: a[k] == b[k])) ==> escd(a, i) == escd(b, i) [C03]
 //@ func IsDomainName [C03]
-//@   use escd_prefix
-//@   apply at "for i := 0; i < len(s); i++ {" escd_prefix(s, old(s), len(old(s)) - 1)
 //@   apply at "if off+1 > lenmsg" ns_over(s, i, i - begin, off, wasDot, labels)
 //@   ensures empty: len(s) == 0 ==> !ok
 //@   ensures valid: IsFqdnSpec(s) ==> ok == (namescan(s, 0, 0, 0, false, 0) >= 0)
 //@   ensures count: IsFqdnSpec(s) && ok ==> labels == namescan(s, 0, 0, 0, false, 0)
-// a name that ends in a dangling (itself unescaped) backslash has no wire form, qualified or not
-//@   ensures dangle: len(s) > 0 && s[len(s)-1] == '\\' && !escd(s, len(s)-1) ==> !ok
+// a name is valid only if its qualified form (the local s after s = Fqdn(s)) really is fully qualified: a name that
+// ends in a dangling backslash escapes the dot that Fqdn appends and has no wire form (callres: the qualified name)
+//@   exit dangle: ok ==> IsFqdnSpec(callres("Fqdn"))
 //@   loop 1 invariant 0 <= i && 0 <= begin && begin <= i && 0 <= off && off <= begin && 0 <= labels && len(s) > 0
 //@   loop 1 invariant rest: namescan(s, 0, 0, 0, false, 0) == namescan(s, i, i - begin, off, wasDot, labels)
 //@   loop 1 invariant unesc: i <= len(s) + 1 && (i == len(s) + 1 ==> s[len(s)-1] == '\\') && (i < len(s) ==> !escd(s, i))
+//@   loop 1 invariant lastdot: s[len(s)-1] == '.'
+//@   assert at "if escape {" atend: i == len(s) && (escd(s, len(s)-1) ==> escape)
 //@   loop 1 invariant escset: i >= 1 && i <= len(s) && escd(s, i-1) ==> escape
 //@   loop 1 invariant esc: escape ==> i >= 1 && (i > len(s) || s[i-1] != '.' || escd(s, i-1))
 //@   loop 1 decreases len(s) - i
